@@ -28,9 +28,9 @@ JOBS = [
   Job("c16.overlay.sizes", TU, "h_overlay_sizes", defines=LD, timeout=100),
 ] + [
   Job("c16.keys.%s.leaf%d" % (n, lf), "c16_keys.c", h, cbmc=["--unwind", "18", "--unwinding-assertions"], defines=["-DLEAF_IX=%d" % lf],
-      kind="bounded", note="leaf index fixed to %d (first/last leaf of the 64); all 16 keys of the leaf, all values, all destructor tables" % lf,
-      fuc=f, timeout=120)
-  for lf in (0, 63)
+      kind="bounded", note="leaf index fixed to %d (quick tier: first/last leaf of the 64; thorough tier: every leaf); all 16 keys of the leaf, all values, all destructor tables" % lf,
+      fuc=f, timeout=300, tiers=(("quick", "thorough") if lf in (0, 63) else ("thorough",)))
+  for lf in range(64)            # quick tier: first and last leaf; thorough tier: all 64 leaves = all 1024 keys
   for (n, h, f) in (("exit_live", "h_exit_live_key", ["myth_tls_call_destructors_rec"]),
                     ("exit_deleted", "h_exit_deleted_key", ["myth_tls_call_destructors_rec", "myth_tls_key_allocator_dealloc"]))
 ]
